@@ -148,6 +148,46 @@ def unravelKeysPyCall (args : List Key) : Option KeyOut :=
   | k :: _ => (unravelKeyPy k).toOption
   | [] => none
 
+/-! ### the same calls with their exception class (round 2b: both paths now raise the same classes)
+
+  an invalid key (`KeyOut.err`) is `RuntimeError` on both paths: `std::runtime_error` in tensordict/csrc/utils.cpp
+  `unravel_key`, `raise RuntimeError(...)` in tensordict/utils.py `unravel_key`; a container that is neither a list
+  nor a tuple, or a wrong number of positional arguments, is `TypeError` on both paths (pybind11 dispatch /
+  the explicit `isinstance` / `len(keys) != 1` tests of the Python path). -/
+
+inductive KeyErr where
+  | runtimeError
+  | typeError
+  deriving Repr, DecidableEq
+
+def unravelKeyCppE (k : Key) : Except KeyErr KeyOut :=
+  match unravelKeyCpp k with | .err => .error .runtimeError | r => .ok r
+def unravelKeyPyE (k : Key) : Except KeyErr KeyOut :=
+  match unravelKeyPy k with | .err => .error .runtimeError | r => .ok r
+
+def optToExcept (o : Option (List KeyOut)) : Except KeyErr (List KeyOut) :=
+  match o with | some l => .ok l | none => .error .runtimeError
+
+def unravelKeyListCppCallE : KeysArg → Except KeyErr (List KeyOut)
+  | .list l => optToExcept (unravelKeyListCppList l)
+  | .tuple l => optToExcept (unravelKeyListCppTuple l)
+  | .other => .error .typeError
+
+def unravelKeyListPyCallE : KeysArg → Except KeyErr (List KeyOut)
+  | .list l => optToExcept (unravelKeyListPyLoop l)
+  | .tuple l => optToExcept (unravelKeyListPyLoop l)
+  | .other => .error .typeError
+
+def unravelKeysCppCallE : List Key → Except KeyErr KeyOut
+  | [k] => unravelKeyCppE k
+  | _ => .error .typeError
+
+def unravelKeysPyCallE (args : List Key) : Except KeyErr KeyOut :=
+  if args.length ≠ 1 then .error .typeError else
+  match args with
+  | k :: _ => unravelKeyPyE k
+  | [] => .error .typeError
+
 /-! ### specification vocabulary (not a transcription of code) -/
 
 mutual
